@@ -1,7 +1,10 @@
 package main
 
 import (
+	"strings"
+
 	"verif/harness"
+	"verif/model"
 	"verif/univ"
 )
 
@@ -56,6 +59,22 @@ func checkC01(r *harness.Run) harness.Coverage {
 	nestedDocs := univ.Js(`{"a":1,"b":2,"c":3}`, `{"a":[1],"b":{"c":2},"c":"c"}`, `{"a":null,"b":false,"c":[]}`, `{"b":2}`, `[1,2,3]`, `null`)
 	st2 := conform(r, nested, nestedDocs, conformOpts{})
 	st.add(st2)
+	// numerals are decimal whatever they look like: leading zeros (never octal), on an array long enough to tell
+	var numerals []exprCase
+	for _, n := range []string{"010", "-010", "08", "-09", "007", "00", "-00", "011", "0010", "-012", "012"} {
+		for _, ctx := range []string{"[%s]", "a[%s]", "[%s:]", "[:%s]", "[::%s]", "[%s:%s]", "a[*][%s]", "[%s] | @", "[[%s], [1]]"} {
+			text := strings.Replace(ctx, "%s", n, -1)
+			if toks, err := model.Lex(text); err == nil {
+				if ast, strict, perr := model.Parse(toks); perr == nil && strict {
+					numerals = append(numerals, exprCase{toks, text, ast})
+				}
+			}
+		}
+	}
+	st3 := conform(r, numerals, univ.Js(`[0,1,2,3,4,5,6,7,8,9,10,11,12,13]`, `{"a":[0,1,2,3,4,5,6,7,8,9,10,11,12]}`, `{"a":[[0,1,2,3,4,5,6,7,8,9,10,11],[0]]}`, `[]`), conformOpts{})
+	st.add(st3)
+	r.Note("leading_zero_numeral_expressions", len(numerals))
+	exprs = append(exprs, numerals...)
 	r.Note("nested_multiselect_trees", len(nested))
 	exprs = append(exprs, nested...)
 	finishConform(r, st, len(exprs), len(docs))
